@@ -35,7 +35,7 @@ private def lane (v : List Nat) (k : Nat) : List Nat :=
 def handleWied : Handler
   | ["im_sparse_norm", rows] => do
     let rows ← parseSparseW rows
-    some (pnW ((mkMat rows).bind norm))
+    some (pnW ((mkMat rows).map norm))
   | ["im_sparse_primes", rows] => do
     let rows ← parseSparseW rows
     some (match (mkMat rows).bind (selectPrimes Ymq.Mg64.isprime64) with
